@@ -6,6 +6,8 @@ INVARIANT RefStable
 INVARIANT Refuses
 INVARIANT Emit
 CONSTANTS
+  MinN = 1
+  MinRules = 0
   MaxN = 3
   PoolSel = "tiny"
   Codes = {65, 307}
@@ -14,7 +16,7 @@ CONSTANTS
   LigLens = {2}
   Kinds = {"ttf"}
   CmapFormats = {"4"}
-  LigFirst = -1
+  LigFirst = 0
   TextSel = "none"
   Flags = FALSE
   Quiet = TRUE
